@@ -102,6 +102,29 @@ class DeathSuite(cc.ChanSuite):
                 body = body[: max(1, len(body) // 2)] + [["pop"]] + body[max(1, len(body) // 2):]
             ops += body
             yield {"pieces": cc.timed(pieces), "accept": [], "ops": ops, "meta": {"reader": rd}}
+        yield from self.gen_nonlifo(tier, rng)
+
+    def gen_nonlifo(self, tier, rng):
+        """registrations that are not undone in LIFO order: add_death_string (permanent) inside a context,
+        contexts left in FIFO order; the string whose context ended must be silent, the others still watched"""
+        pool = [{"lit": b"ab".hex()}, {"lit": b"ba".hex()}, {"lit": b"yy".hex()}, {"lit": b"b>".hex()}, {"str": "aa"}]
+        for _ in range(3000 if tier == "thorough" else 600):
+            regs = rng.sample(pool, 3)
+            ops = []
+            n_ctx = 0
+            for i, sx in enumerate(regs):
+                if rng.random() < 0.4:
+                    ops.append(["add_death", sx, i])
+                else:
+                    ops.append(["push_death", sx, i])
+                    n_ctx += 1
+            data = cc.rand_bytes(rng, rng.randint(2, 12), b"abyy>")
+            if n_ctx:
+                ops.append(["pop_at", rng.randint(0, n_ctx - 1)])
+            rd = rng.choice(READERS)
+            ops += reader_ops(rd, len(data))
+            yield {"pieces": cc.timed(cc.rand_split(rng, data, 4)), "accept": [], "ops": ops,
+                   "meta": {"reader": rd, "kind": "nonlifo"}}
 
     # ---- independent oracle on the implementation's observation
     def oracle(self, case, obs):
@@ -121,13 +144,21 @@ class DeathSuite(cc.ChanSuite):
             # we track per-op consumption through the io log: each read call of size n delivered min(n, head) bytes;
             # easier: recompute from the data returned is impossible for raising ops, so use the transport replay below
             if k == "push_death":
-                active.insert(0, (o[1], o[2], consumed))
-                stack.append("death")
+                active.insert(0, (o[1], o[2], consumed, idx))
+                stack.append(idx)
+                continue
+            if k == "add_death":
+                active.insert(0, (o[1], o[2], consumed, idx))
                 continue
             if k == "pop":
                 if stack:
-                    stack.pop()
-                    active.pop(0)
+                    rid = stack.pop()
+                    active = [a for a in active if a[3] != rid]
+                continue
+            if k == "pop_at":
+                if o[1] < len(stack):
+                    rid = stack.pop(len(stack) - 1 - o[1])
+                    active = [a for a in active if a[3] != rid]
                 continue
             if k not in ("read", "read_iter", "readline", "expect", "rup", "rut"):
                 continue
@@ -137,7 +168,7 @@ class DeathSuite(cc.ChanSuite):
                 continue
             # expected: does some active string's first occurrence (in data since its registration) end in (before, consumed] ?
             due = []
-            for s, eid, reg in active:
+            for s, eid, reg, _rid in active:
                 e = occurrences_end(s, stream[reg:consumed])
                 if e is not None:
                     due.append((reg + e, eid, s))
